@@ -132,6 +132,41 @@ def _own_walk(node):
         stack.extend(ast.iter_child_nodes(n))
 
 
+def _record_fields(project, c):
+    """(kind, [(name, default expression or None, takes part in __init__)]) for a typing.NamedTuple subclass or a class
+    decorated with @dataclass, from its annotated class-level names in declaration order; None for any other class"""
+    kind = None
+    if any(b in ("typing.NamedTuple",) or str(b).endswith("NamedTuple") for b in c.bases):
+        kind = "namedtuple"
+    for d in getattr(c.node, "decorator_list", []):
+        t = d.func if isinstance(d, ast.Call) else d
+        name = project.resolve(c.module, t) or ast.unparse(t)
+        if name in ("dataclasses.dataclass", "dataclass") or name.endswith(".dataclass"):
+            kind = "dataclass"
+    if kind is None:
+        return None
+    fields = []
+    for b in c.node.body:
+        if isinstance(b, ast.AnnAssign) and isinstance(b.target, ast.Name):
+            ann = ast.unparse(b.annotation)
+            if ann.startswith("ClassVar") or ann.startswith("typing.ClassVar"):
+                continue
+            default, in_init = b.value, True
+            if isinstance(b.value, ast.Call) and (project.resolve(c.module, b.value.func) or ast.unparse(b.value.func)).endswith("field"):
+                default = None
+                for kw in b.value.keywords:
+                    if kw.arg == "init" and isinstance(kw.value, ast.Constant) and kw.value.value is False:
+                        in_init = False
+                    if kw.arg == "default":
+                        default = kw.value
+                    if kw.arg == "default_factory":
+                        default = ast.Call(kw.value, [], [])
+                        ast.copy_location(default, b.value)
+                        ast.fix_missing_locations(default)
+            fields.append((b.target.id, default, in_init))
+    return kind, fields
+
+
 def _counter_loops(fnode):
     """`i = lo` … `while i < hi: body; i += 1` is executed as `for i in range(lo, hi): body` (and `<=` as range(lo, hi + 1)):
     the counting loop of index-style code.  Only when the body neither rebinds the counter elsewhere nor contains a `continue`
@@ -1672,6 +1707,8 @@ class Interp:
     def unpack(self, v: Val, n: int, node) -> List[Val]:
         if isinstance(v, Seq) and len(v.items) == n:
             return list(v.items)
+        if isinstance(v, ObjV) and getattr(v, "record", None) and v.record[0] == "namedtuple" and len(v.record[1]) == n:
+            return [v.attrs[k] for k in v.record[1]]
         if isinstance(v, ObjV) and v.tag == "lazy-map":
             from .prims import _realise_map
             items = _realise_map(self, v, node)
@@ -2801,11 +2838,41 @@ class Interp:
                 if k < len(ps):
                     bound[ps[k]] = v
             bound.update(kwargs)
+        rec = _record_fields(self.p, c) if init is None else None
+        if rec is not None:
+            # a record class (typing.NamedTuple / @dataclass) without a hand-written __init__: the generated constructor
+            # binds the fields that take part in it, in declaration order, then runs __post_init__
+            kind, fields = rec
+            names = [f_[0] for f_ in fields if f_[2]]
+            for k, v in enumerate(pos):
+                if k < len(names):
+                    bound[names[k]] = v
+                else:
+                    return self.unknown("record-constructor-arity", n)
+            for k_, v_ in kwargs.items():
+                if k_ not in names:
+                    return self.unknown("record-constructor-keyword", n)
+                bound[k_] = v_
+            for name, default, in_init in fields:
+                if in_init and name not in bound:
+                    if default is None:
+                        return self.unknown("record-constructor-missing:" + name, n)
+                    bound[name] = self.eval(default, {})
         self.event("construct", n, cls=cq, args=bound)
         stubs = self.cfg.flags.get("stub_ctor") or {}
         if cq in stubs:
             # a rule asked to observe the construction instead of executing the constructor
             return stubs[cq](self, bound, n)
+        if rec is not None:
+            kind, fields = rec
+            for name, default, in_init in fields:
+                if in_init:
+                    obj.attrs[name] = bound[name]
+            obj.record = (kind, [f_[0] for f_ in fields if f_[2]])
+            post = c.lookup("__post_init__", self.p)
+            if post is not None:
+                self.call_function(post, [obj], {}, n)
+            return obj
         if init is not None:
             self.call_function(init, [obj] + pos, kwargs, n)
         return obj
